@@ -109,10 +109,10 @@ func ProtoMonitor(sc *Scenario, w *World, x *Exec) []Violation {
 						if st.reqLeft > 0 {
 							bad("message-contiguous", "c2s:envelope-inside-message", fmt.Sprintf("%s: %s while %d bytes of the previous message are outstanding", ms.Name, FrameString(f), st.reqLeft))
 						}
-						if len(fr.RequestMessage.Data) > protoChunk {
+						if f.DataLen > protoChunk {
 							bad("chunk-at-most-16k", "c2s:chunk-too-large", fmt.Sprintf("%s: %s", ms.Name, FrameString(f)))
 						}
-						st.reqLeft = int(fr.RequestMessage.Size) - len(fr.RequestMessage.Data)
+						st.reqLeft = int(fr.RequestMessage.Size) - f.DataLen
 						if st.reqLeft < 0 {
 							bad("chunks-sum-to-size", "c2s:more-data-than-size", fmt.Sprintf("%s: %s", ms.Name, FrameString(f)))
 						}
@@ -123,10 +123,10 @@ func ProtoMonitor(sc *Scenario, w *World, x *Exec) []Violation {
 						if st.reqLeft <= 0 {
 							bad("chunks-sum-to-size", "c2s:continuation-without-envelope", fmt.Sprintf("%s: %s", ms.Name, FrameString(f)))
 						}
-						if len(fr.MoreRequestData) > protoChunk {
+						if f.DataLen > protoChunk {
 							bad("chunk-at-most-16k", "c2s:chunk-too-large", fmt.Sprintf("%s: %s", ms.Name, FrameString(f)))
 						}
-						st.reqLeft -= len(fr.MoreRequestData)
+						st.reqLeft -= f.DataLen
 						if st.reqLeft < 0 {
 							bad("chunks-sum-to-size", "c2s:more-data-than-size", fmt.Sprintf("%s: %s", ms.Name, FrameString(f)))
 						}
@@ -197,10 +197,10 @@ func ProtoMonitor(sc *Scenario, w *World, x *Exec) []Violation {
 						if st.respLeft > 0 {
 							bad("message-contiguous", "s2c:envelope-inside-message", fmt.Sprintf("%s: %s while %d bytes outstanding", ms.Name, FrameString(f), st.respLeft))
 						}
-						if len(fr.ResponseMessage.Data) > protoChunk {
+						if f.DataLen > protoChunk {
 							bad("chunk-at-most-16k", "s2c:chunk-too-large", fmt.Sprintf("%s: %s", ms.Name, FrameString(f)))
 						}
-						st.respLeft = int(fr.ResponseMessage.Size) - len(fr.ResponseMessage.Data)
+						st.respLeft = int(fr.ResponseMessage.Size) - f.DataLen
 						if st.respLeft < 0 {
 							bad("chunks-sum-to-size", "s2c:more-data-than-size", fmt.Sprintf("%s: %s", ms.Name, FrameString(f)))
 						}
@@ -209,10 +209,10 @@ func ProtoMonitor(sc *Scenario, w *World, x *Exec) []Violation {
 						if st.respLeft <= 0 {
 							bad("chunks-sum-to-size", "s2c:continuation-without-envelope", fmt.Sprintf("%s: %s", ms.Name, FrameString(f)))
 						}
-						if len(fr.MoreResponseData) > protoChunk {
+						if f.DataLen > protoChunk {
 							bad("chunk-at-most-16k", "s2c:chunk-too-large", fmt.Sprintf("%s: %s", ms.Name, FrameString(f)))
 						}
-						st.respLeft -= len(fr.MoreResponseData)
+						st.respLeft -= f.DataLen
 						if st.respLeft < 0 {
 							bad("chunks-sum-to-size", "s2c:more-data-than-size", fmt.Sprintf("%s: %s", ms.Name, FrameString(f)))
 						}
@@ -361,9 +361,9 @@ func WinMonitor(sc *Scenario, w *World, x *Exec) []Violation {
 						streams[id] = &sinfo{rev: fr.NewStream.ProtocolRevision, win: [2]int{srvWin, int(fr.NewStream.InitialWindowSize)}, script: scriptOf(fr.NewStream), method: fr.NewStream.MethodName}
 						continue
 					case *tunnelpb.ClientToServer_RequestMessage:
-						dir, dataLen, isData = 0, len(fr.RequestMessage.Data), true
+						dir, dataLen, isData = 0, f.DataLen, true
 					case *tunnelpb.ClientToServer_MoreRequestData:
-						dir, dataLen, isData = 0, len(fr.MoreRequestData), true
+						dir, dataLen, isData = 0, f.DataLen, true
 					case *tunnelpb.ClientToServer_WindowUpdate:
 						dir, credit = 1, int(fr.WindowUpdate) // credit for responses
 					}
@@ -374,9 +374,9 @@ func WinMonitor(sc *Scenario, w *World, x *Exec) []Violation {
 						srvWin = int(fr.Settings.InitialWindowSize)
 						continue
 					case *tunnelpb.ServerToClient_ResponseMessage:
-						dir, dataLen, isData = 1, len(fr.ResponseMessage.Data), true
+						dir, dataLen, isData = 1, f.DataLen, true
 					case *tunnelpb.ServerToClient_MoreResponseData:
-						dir, dataLen, isData = 1, len(fr.MoreResponseData), true
+						dir, dataLen, isData = 1, f.DataLen, true
 					case *tunnelpb.ServerToClient_WindowUpdate:
 						dir, credit = 0, int(fr.WindowUpdate)
 					}
@@ -483,32 +483,32 @@ func firstKMessageBytes(frames []*Frame, id int64, dir, k int) int {
 			if dir != 0 || m.StreamId != id {
 				continue
 			}
-			switch fr := m.Frame.(type) {
+			switch m.Frame.(type) {
 			case *tunnelpb.ClientToServer_RequestMessage:
 				msgs++
 				if msgs > k {
 					return total
 				}
-				total += len(fr.RequestMessage.Data)
+				total += f.DataLen
 			case *tunnelpb.ClientToServer_MoreRequestData:
 				if msgs <= k {
-					total += len(fr.MoreRequestData)
+					total += f.DataLen
 				}
 			}
 		case *tunnelpb.ServerToClient:
 			if dir != 1 || m.StreamId != id {
 				continue
 			}
-			switch fr := m.Frame.(type) {
+			switch m.Frame.(type) {
 			case *tunnelpb.ServerToClient_ResponseMessage:
 				msgs++
 				if msgs > k {
 					return total
 				}
-				total += len(fr.ResponseMessage.Data)
+				total += f.DataLen
 			case *tunnelpb.ServerToClient_MoreResponseData:
 				if msgs <= k {
-					total += len(fr.MoreResponseData)
+					total += f.DataLen
 				}
 			}
 		}
